@@ -79,7 +79,7 @@ Print Assumptions C02_gen_IsValid_equiv.
    C20's mirror of it on the arguments processSignature can pass *)
 Theorem C02_gen_isRequiredVerificationPluginVer_equiv : forall gcmp, compare_agrees gcmp -> compare_range gcmp ->
   forall v min, sv_valid v = true ->
-    match min with AStr m => sv_valid m = true | AAbsent => True | _ => False end ->
+    match min with VerifyCore.AStr m => sv_valid m = true | AAbsent => True | _ => False end ->
     gen_verifier_isRequiredVerificationPluginVer gcmp v (minver_string min) = ver_ge v min.
 Proof. exact gen_isRequired_equiv. Qed.
 Print Assumptions C02_gen_isRequiredVerificationPluginVer_equiv.
@@ -111,3 +111,107 @@ Theorem C02_gen_revocation_passes_iff : forall (C : Type) (subjs : C -> string) 
   <-> rev_answer_ok C results chain.
 Proof. exact gen_revocation_passes_iff. Qed.
 Print Assumptions C02_gen_revocation_passes_iff.
+
+(* ---------------------------------------------------------------------- *)
+(* the plugin headers and the attributes handed to the plugin              *)
+(* (verifier/helpers.go; keys and values of type any)                      *)
+(* ---------------------------------------------------------------------- *)
+
+(* [attr_state key attrs] reads a header off the attribute list the code sees as the model's
+   [attr]: absent / not critical / value not a Go string / the string. [xres_of] is how
+   processSignature reads a (value, error) pair: err == errExtendedAttributeNotExist, another
+   error, or nil. *)
+Theorem C02_gen_extractCriticalStringExtendedAttribute_equiv : forall (C : Type) (si : signature_SignerInfo C) key,
+  xres_of (gen_verifier_extractCriticalStringExtendedAttribute C si key)
+  = extract_res (attr_state key (SignedAttributes_ExtendedAttributes (SignerInfo_SignedAttributes C si)))
+  /\ (snd (gen_verifier_extractCriticalStringExtendedAttribute C si key) <> None ->
+      fst (gen_verifier_extractCriticalStringExtendedAttribute C si key) = "").
+Proof. exact gen_extract_equiv. Qed.
+Print Assumptions C02_gen_extractCriticalStringExtendedAttribute_equiv.
+
+(* the demand: absent / malformed (not critical, not a string, blank) / the plugin name *)
+Theorem C02_gen_getVerificationPlugin_equiv : forall (C : Type) (si : signature_SignerInfo C),
+  xres_of (gen_verifier_getVerificationPlugin C si)
+  = plugin_res (attr_state hdr_plugin (SignedAttributes_ExtendedAttributes (SignerInfo_SignedAttributes C si)))
+  /\ (snd (gen_verifier_getVerificationPlugin C si) <> None -> fst (gen_verifier_getVerificationPlugin C si) = "").
+Proof. exact gen_getVerificationPlugin_equiv. Qed.
+Print Assumptions C02_gen_getVerificationPlugin_equiv.
+
+(* ... and [plugin_res] is the decision VerifyCore.discover takes on the header *)
+Theorem C02_gen_discover_by_plugin_res : forall sc,
+  discover sc
+  = match plugin_res (s_plugin_attr sc) with
+    | XErr => DErr EOther []
+    | XAbsent => if s_nonstring_crit sc then DErr EInconclusive [] else DNoPlugin
+    | XVal name => if s_nonstring_crit sc then DErr EInconclusive [] else lookup_plugin sc name
+    end.
+Proof. exact discover_by_plugin_res. Qed.
+Print Assumptions C02_gen_discover_by_plugin_res.
+
+(* the demanded minimum version: absent / malformed (not critical, not a string, blank, not
+   SemVer) / the version *)
+Theorem C02_gen_getVerificationPluginMinVersion_equiv : forall (C : Type) (si : signature_SignerInfo C),
+  xres_of (gen_verifier_getVerificationPluginMinVersion C si)
+  = minver_res (attr_state hdr_minver (SignedAttributes_ExtendedAttributes (SignerInfo_SignedAttributes C si)))
+  /\ (snd (gen_verifier_getVerificationPluginMinVersion C si) <> None ->
+      fst (gen_verifier_getVerificationPluginMinVersion C si) = "").
+Proof. exact gen_getVerificationPluginMinVersion_equiv. Qed.
+Print Assumptions C02_gen_getVerificationPluginMinVersion_equiv.
+
+Theorem C02_gen_minver_error_by_minver_res : forall sc,
+  s_minver_valid sc = minver_valid_of (s_minver_attr sc) ->
+  minver_error sc = match minver_res (s_minver_attr sc) with XErr => true | _ => false end.
+Proof. exact minver_error_by_minver_res. Qed.
+Print Assumptions C02_gen_minver_error_by_minver_res.
+
+(* what is handed to the plugin: every attribute with a Go-string key other than the two plugin
+   headers, critical or not, in order = [s_other] / [other_keys] of the scenario *)
+Theorem C02_gen_getNonPluginExtendedCriticalAttributes_equiv : forall (C : Type) (si : signature_SignerInfo C),
+  map attr_kc (gen_verifier_getNonPluginExtendedCriticalAttributes C si)
+  = other_of (SignedAttributes_ExtendedAttributes (SignerInfo_SignedAttributes C si))
+  /\ Forall (fun a => exists k, Attribute_Key a = GoLib.AStr "string" k)
+            (gen_verifier_getNonPluginExtendedCriticalAttributes C si).
+Proof. exact gen_getNonPlugin_equiv. Qed.
+Print Assumptions C02_gen_getNonPluginExtendedCriticalAttributes_equiv.
+
+(* "was this attribute processed": slices.ContainsAny on a string key never panics and is
+   membership among the Go strings the plugin listed *)
+Theorem C02_gen_ContainsAny_equiv : forall l k,
+  gen_slices_ContainsAny l (GoLib.AStr "string" k) = Some (mem_str k (strs_of l)).
+Proof. exact gen_ContainsAny_equiv. Qed.
+Print Assumptions C02_gen_ContainsAny_equiv.
+
+(* hence the model's [crit_processed] (clause 2e: a critical attribute left unprocessed) is the
+   conjunction of the code's own tests over the critical attributes it hands to the plugin *)
+Theorem C02_gen_crit_processed_by_ContainsAny : forall sc (l : list signature_Attribute) (processed : list anyv),
+  s_other sc = other_of l ->
+  crit_processed sc (strs_of processed)
+  = forallb (fun kc => match gen_slices_ContainsAny processed (GoLib.AStr "string" (fst kc)) with
+                       | Some b => b | None => false end)
+            (filter snd (other_of l)).
+Proof. exact crit_processed_by_ContainsAny. Qed.
+Print Assumptions C02_gen_crit_processed_by_ContainsAny.
+
+(* ---------------------------------------------------------------------- *)
+(* ( *verifier).verifyRevocation: the native revocation validation          *)
+(* ---------------------------------------------------------------------- *)
+
+(* For every verifier configuration and outcome (non-nil envelope content and level): the function
+   returns one result of type "revocation" carrying the action the level assigns to revocation,
+   and its Error is nil EXACTLY WHEN the configured validator (code-signing validator, else the
+   deprecated client; none configured = failure) answered without error one result per certificate
+   of the chain, each OK or non-revokable. This is [s_rev_ok] of the scenario ("revocation ok" of
+   the property's quantifier; [Unrevoked] of C02_Compose) on the code's own body. Oracles: the
+   validator itself (a function field of the verifier) and SignerInfo.AuthenticSigningTime. *)
+Theorem C02_gen_verifyRevocation_spec :
+  forall (C : Type) (subjs : C -> string) (ast : ptr (signature_SignerInfo C) -> Z * option GoLib.err) (PM : Type)
+         (v : verifier_verifier C PM) outcome o env lvl,
+  ptr_val outcome = Some o ->
+  ptr_val (VerificationOutcome_EnvelopeContent C o) = Some env ->
+  ptr_val (VerificationOutcome_VerificationLevel C o) = Some lvl ->
+  exists r, gen_verifier_verifier_verifyRevocation C subjs ast PM v outcome = Some (PNew r)
+            /\ ValidationResult_Type r = "revocation"
+            /\ ValidationResult_Action r = enf_get lvl "revocation"
+            /\ (ValidationResult_Error r = None <-> rev_ok_of C ast PM v env).
+Proof. exact gen_verifyRevocation_spec. Qed.
+Print Assumptions C02_gen_verifyRevocation_spec.
